@@ -131,6 +131,11 @@ func c07runHistory(rep *vh.Report, keyRaw []byte, key *frame.V2Key, hist []uint6
 				}
 				continue
 			}
+			if r0, isReader := rd.(*frame.Reader); isReader && i > 0 && (i+len(hist))%3 == 0 {
+				// the application installs the key again (a configuration reload: an equal key in a new object): the link, and what
+				// the reader remembers of it, are the same
+				r0.InKey = mkKey(keyRaw)
+			}
 			want := m.step(ts)
 			fr, err := rd.Read()
 			if err == io.EOF {
